@@ -264,7 +264,8 @@ fn run_classify(e: &Ev, c: &dyn PoolMigrationConstants) -> Option<Zip318Classifi
 
 const COIN: u64 = 100_000_000;
 
-fn classify_lattice(st: &mut Stats, pairs: bool) {
+fn classify_lattice(st: &mut Stats, r: &mut Rng, all_pairs: bool) {
+    let pairs = true;
     let d = Defaults;
     let ct = consts_term(&d);
     let srcs = [None, Some(2usize), Some(16), Some(3)];
@@ -300,6 +301,10 @@ fn classify_lattice(st: &mut Stats, pairs: bool) {
         }
         // covering pairs e < e' (one more clause answered) whose lower point is decided
         if matches!(o, Some(Zip318Classification::Unknown)) {
+            continue;
+        }
+        // a refutation is cheap to re-check and dominates the lattice: sample it in the quick tier
+        if matches!(o, Some(Zip318Classification::Nonconforming)) && !all_pairs && !r.chance(1, 10) {
             continue;
         }
         let mut ups: Vec<Ev> = vec![];
@@ -465,7 +470,8 @@ fn gen_wakeups(r: &mut Rng, st: &mut Stats) {
         };
         ts.push((id, a, b));
     }
-    let ws = stream(r, st, r.range(0, n as u64 + 6) as usize);
+    let wl = r.range(0, n as u64 + 6) as usize;
+    let ws = stream(r, st, wl);
     wakeup_case(margin, jitter, tip, &ts, &ws, st);
 }
 
@@ -519,10 +525,10 @@ fn main() {
 
     // --- classification: exhaustive lattice (+ covering pairs), witness, random evidence ---
     classify_witness();
-    classify_lattice(&mut st, true);
+    classify_lattice(&mut st, &mut r, big);
     let alt = Consts { prep: 4, min: Zatoshis::const_from_u64(COIN), max: Zatoshis::const_from_u64(100 * COIN) };
     let alt2 = Consts { prep: 2, min: Zatoshis::const_from_u64(1), max: Zatoshis::const_from_u64(21_000_000 * COIN) };
-    for _ in 0..a.budget(3000, 60_000) {
+    for _ in 0..a.budget(2000, 20_000) {
         let (c, prep): (&dyn PoolMigrationConstants, usize) = match r.below(4) { 0 => (&alt, 4), 1 => (&alt2, 2), _ => (&Defaults, 16) };
         let e = rand_ev(&mut r, prep);
         let o = run_classify(&e, c);
@@ -537,7 +543,7 @@ fn main() {
     }
 
     // --- expiry / grid on random heights ---
-    for _ in 0..a.budget(1500, 50_000) {
+    for _ in 0..a.budget(1500, 20_000) {
         let h = rand_height(&mut r);
         case(format!("Expiry {} {}", h, zu(u(z318::expiry_height(bh(h))))));
         let i = rand_interval(&mut r);
@@ -550,7 +556,7 @@ fn main() {
     }
 
     // --- shuffles ---
-    for k in 0..a.budget(1500, 40_000) {
+    for k in 0..a.budget(1500, 15_000) {
         let n = match r.below(6) { 0 => r.below(3) as usize, 1 => r.range(40, 64) as usize, _ => r.range(2, 12) as usize };
         let len = if r.chance(1, 12) { r.below(n as u64 + 1) as usize } else { n + r.below(6) as usize };
         let ws = stream(&mut r, &mut st, len);
@@ -589,7 +595,7 @@ fn main() {
     for &(m, c) in &[(1u32, 1u32), (5, 4), (144, 143), (144, 144), (144, 576), (u32::MAX, u32::MAX), (u32::MAX, u32::MAX - 1), (1, u32::MAX)] {
         case(format!("DelayNew {} {} {}", m, c, boolc(DelayDistribution::new(nz(m), nz(c)).is_some())));
     }
-    for k in 0..a.budget(2500, 60_000) {
+    for k in 0..a.budget(2500, 25_000) {
         let (mean, cap) = delay_params(&mut r);
         let dist = DelayDistribution::new(nz(mean), nz(cap)).expect("cap >= mean");
         let n = match r.below(5) { 0 => 0usize, 1 => 1, _ => r.range(2, 10) as usize };
@@ -626,9 +632,10 @@ fn main() {
     }
 
     // --- anchors ---
-    for k in 0..a.budget(4000, 100_000) {
+    for k in 0..a.budget(4000, 40_000) {
         let i = rand_interval(&mut r);
-        let ws = stream(&mut r, &mut st, r.below(7) as usize);
+        let wl = r.below(7) as usize;
+        let ws = stream(&mut r, &mut st, wl);
         let tip = rand_height(&mut r);
         let mr = tip - tip % i;
         // parameters near the interesting region: a few intervals below the most recent boundary
@@ -643,15 +650,19 @@ fn main() {
                 _ => base.saturating_add(r.below(span + 1) as u32),
             }
         };
+        let viable = |r: &mut Rng| -> u32 {
+            // a few intervals below the most recent boundary, on or next to the grid
+            let k = r.range(1, 6);
+            mr.saturating_sub((k * i as u64).min(u32::MAX as u64) as u32).saturating_add(r.below(3) as u32).saturating_sub(1)
+        };
         match k % 4 {
             0 | 1 => {
-                let nu = near(&mut r, mr);
-                let funding = near(&mut r, mr);
+                let (nu, funding) = if r.bool() { (viable(&mut r), viable(&mut r)) } else { (near(&mut r, mr), near(&mut r, mr)) };
                 let o = with_rng(&ws, |g| sch::draw_anchor_boundary(iv(i), bh(nu), bh(funding), bh(tip), g));
                 case(format!("AnchorDraw {} {} {} {} {} {}", i, nu, funding, tip, zl(&ws), anchor_out(o, &mut st, "anchor")));
             }
             2 => {
-                let prior = near(&mut r, mr);
+                let prior = if r.bool() { viable(&mut r) } else { near(&mut r, mr) };
                 let o = with_rng(&ws, |g| sch::redraw_anchor_boundary(iv(i), bh(prior), bh(tip), g));
                 case(format!("AnchorRedraw {} {} {} {} {}", i, prior, tip, zl(&ws), anchor_out(o, &mut st, "redraw")));
             }
@@ -672,10 +683,9 @@ fn main() {
     wakeup_case(10, 12, 100, &[(7, u32::MAX, u32::MAX)], &[], &mut st);
     wakeup_case(10, 12, 100, &[(7, u32::MAX - 1, u32::MAX)], &[], &mut st);
     wakeup_case(10, 12, 100, &[(7, u32::MAX - 2, u32::MAX)], &[3], &mut st);
-    for _ in 0..a.budget(4000, 100_000) {
+    for _ in 0..a.budget(2500, 30_000) {
         gen_wakeups(&mut r, &mut st);
     }
-    let _ = big;
 
     let sm = |m: &std::collections::BTreeMap<String, u64>| m.iter().map(|(k, v)| format!("\"{}\":{}", k, v)).collect::<Vec<_>>().join(",");
     stat(format!("{{\"streams\":{{{}}}}}", st.streams.iter().map(|(k, v)| format!("\"{}\":{}", k, v)).collect::<Vec<_>>().join(",")));
